@@ -33,6 +33,7 @@ type Obl struct {
 	failedPart *Obl
 	MaxPartMS  int    `json:"-"`
 	SlowPart   string `json:"-"`
+	Retried    bool   `json:"retried,omitempty"`
 }
 
 type Ctx struct {
